@@ -114,9 +114,11 @@ class System(BaseSystem):
         liouvillian : ndarray
             Liouvillian :math:`\mathcal{L}`.
         """
-        return _liouvillian(self._hamiltonian,
-                            self._gammas,
-                            self._lindblad_operators)
+        liouvillian = _liouvillian(self._hamiltonian,
+                                   self._gammas,
+                                   self._lindblad_operators)
+        liouvillian.setflags(write=False) # (the result is cached)
+        return liouvillian
 
     def get_propagators(self, dt, start_time, subdiv_limit, epsrel):
         """Prepare propagator functions for the system. """
